@@ -376,6 +376,23 @@ def gen_thread(status):
         if m_reset and m_store and m_reset.start() < m_store.start():
             expire_first = True
     status['facts']['heartbeat_expires_before_release'] = expire_first
+    # the small accessors of HeartBeater, by shape: `HasID` is "the ID pointer is non-null" (any strong reference
+    # counts - a client may promote the weak heartbeat), `GetID` dereferences it, `GetHeartBeat` is a weak reference to
+    # it, `SetID` makes a fresh shared value
+    def body_of(fn):
+        f = cxxscan.find_function(src, fn)
+        return re.sub(r'\s+', '', f[1]) if f else ''
+    has_id = body_of('IDManager::HeartBeater::HasID')
+    shapes = {
+        'has_id_nonnull': has_id in ('returnid_.use_count()>0;', 'returnid_.use_count()!=0;', 'returnid_!=nullptr;',
+                                     'returnstatic_cast<bool>(id_);', 'returnbool(id_);', 'return!!id_;'),
+        'get_id_deref': body_of('IDManager::HeartBeater::GetID') == 'return*id_;',
+        'get_heartbeat_weak': body_of('IDManager::HeartBeater::GetHeartBeat') in ('returnstd::weak_ptr<size_t>{id_};', 'returnid_;',
+                                                                                  'returnstd::weak_ptr<size_t>(id_);'),
+        'set_id_fresh': body_of('IDManager::HeartBeater::SetID') in ('id_=std::make_shared<size_t>(id);',),
+    }
+    status['facts']['heartbeater_accessors'] = shapes
+    accessors_ok = all(shapes.values())
     body = HEADER + 'import CppUtil.Model.Epoch\nnamespace CppUtil.Gen\nopen CppUtil\n\n'
     body += ('def epochConsts : Epoch.Consts := { kCapacity := %d, kInitialEpoch := %d, kMinEpoch := %d }\n\n'
              % (vals['kCapacity'], vals['kInitialEpoch'], vals['kMinEpoch']))
@@ -384,7 +401,10 @@ def gen_thread(status):
         body += f'  | "{k_}" => {MO_LEAN[d[k_]]}\n'
     body += '  | _ => .sc\n\n'
     body += '/-- `~HeartBeater` drops the heartbeat before it clears the reservation flag -/\n'
-    body += f'def heartbeatExpiresFirst : Bool := {"true" if expire_first else "false"}\n\nend CppUtil.Gen\n'
+    body += f'def heartbeatExpiresFirst : Bool := {"true" if expire_first else "false"}\n\n'
+    body += ('/-- the HeartBeater accessors have the modelled shape: `HasID` = the ID pointer is non-null, `GetID` dereferences it, '
+             '`GetHeartBeat` is a weak reference to it, `SetID` stores a fresh shared value -/\n')
+    body += f'def heartBeaterAccessorsAsModelled : Bool := {"true" if accessors_ok else "false"}\n\nend CppUtil.Gen\n'
     return write_if_changed(os.path.join(GEN_DIR, 'Thread.lean'), body)
 
 
